@@ -20,7 +20,7 @@ ID = 'C07'
 
 MANIFEST = dict(
     technique='explicit-state enumeration of all ordered line lists x batch sizes x modes x stub networks on the real engine (real constructor, TorchScript stub); differential oracle = each line recognised alone by a fresh engine',
-    text='Bounded exhaustive: every ordered list of 0-2 line crops over a 15-crop alphabet (widths 1..300, equal-width twins, an over-long crop) x batch size {1,2,3,16} (quick) / 1..16 (thorough) x {sparse, dense, tight-crop, no-logits} x two stub networks, every list of 3 crops for batch sizes {1,16} on the local stub (quick) / all batch sizes and both stubs (thorough), lists of 4 over a 6-crop sub-alphabet (thorough), each recognised, recognised again in reverse order on the same engine, and through PageOCR.process_page. At every position the text, the logits on the line\'s own frames and the frame window must equal those of the line recognised alone; sparse storage must hold exactly the dense logits with posterior >= 1e-4. Added sub-sweeps: crops of 417 / 440 / 448 / 500 px around the smallest engine maximum, a blank crop, a crop with logit range > 200, an embedding engine whose id changes between calls, 260 lines in one call, and a sparsification clause (exactly the entries with posterior >= 1e-4).',
+    text='Bounded exhaustive: every ordered list of 0-2 line crops over a 15-crop alphabet (widths 1..300, equal-width twins, an over-long crop) x batch size {1,2,3,16} (quick) / 1..16 (thorough) x {sparse, dense, tight-crop, no-logits} x two stub networks, every list of 3 crops for batch sizes {1,16} on the local stub (quick) / all batch sizes and both stubs (thorough), lists of 4 over a 6-crop sub-alphabet (thorough), each recognised, recognised again in reverse order on the same engine, and through PageOCR.process_page. At every position the text, the logits on the line\'s own frames and the frame window must equal those of the line recognised alone; sparse storage must hold exactly the dense logits with posterior >= 1e-4. Added sub-sweeps: crops of 417 / 440 / 448 / 500 px around the smallest engine maximum, a blank crop, a crop with logit range > 200, an embedding engine whose id changes between calls, 260 lines in one call, and a sparsification clause (exactly the entries with posterior >= 1e-4). Crops with identical bytes but different shape/dtype (the float64 placeholder of a failed crop next to a blank uint8 crop) in one call; the call after one in which the network raised out-of-memory once (injected fault).',
     note='Stub networks with bounded horizontal receptive field (the property is stated for those); CPU only; float tolerance 1e-5 on logits.',
     ref='3/C07')
 
